@@ -10,7 +10,7 @@ def one(kind, d):
     tmp = tempfile.mkdtemp(prefix='rs_')
     try:
         shutil.copytree('/repo/src', os.path.join(tmp, 'src'))
-        p = subprocess.run('patch -p1 -s -d %s < %s' % (tmp, os.path.join(V, kind, d, 'patch.diff')), shell=True, capture_output=True, text=True)
+        p = subprocess.run('patch -p1 -s -d %s < %s' % (tmp, os.path.join(kind if os.path.isabs(kind) else os.path.join(V, kind), d, 'patch.diff')), shell=True, capture_output=True, text=True)
         if p.returncode:
             return d, 'PATCH-FAIL', [p.stdout[:200]]
         env = dict(os.environ, PYG_BASE_REPO=tmp)
@@ -23,14 +23,15 @@ def one(kind, d):
 
 def main():
     kind = sys.argv[1] if len(sys.argv) > 1 else 'seeded'
-    ids = sys.argv[2:] or sorted(os.listdir(os.path.join(V, kind)))
-    ids = [i for i in ids if os.path.exists(os.path.join(V, kind, i, 'patch.diff'))]
+    base = kind if os.path.isabs(kind) else os.path.join(V, kind)
+    ids = [a for a in sys.argv[2:] if not a.startswith('-')] or sorted(os.listdir(base))
+    ids = [i for i in ids if os.path.exists(os.path.join(base, i, 'patch.diff'))]
     with ThreadPoolExecutor(16) as ex:
         res = list(ex.map(lambda d: one(kind, d), ids))
     tally = {}
     for d, code, lines in res:
         tally[code] = tally.get(code, 0) + 1
-        want = 1 if kind == 'seeded' else 0
+        want = 0 if 'benign' in kind else 1
         if code != want or '-v' in sys.argv:
             print(d, 'exit', code)
             for l in lines[:4]:
